@@ -45,7 +45,7 @@ def extractor_kinds(ctx, kit):
     ext = {}
     for n in walk_no_nested(kit):
         if isinstance(n, ast.If):
-            body_calls = [c for c in calls(ast.Module(body=n.body, type_ignores=[])) if isinstance(c.func, ast.Attribute) and c.func.attr in ("extend", "append") and unparse(c.func.value) == "work"]
+            body_calls = [c for c in calls(ast.Module(body=n.body, type_ignores=[])) if isinstance(c.func, ast.Attribute) and c.func.attr in ("extend", "append") and eqv(c.func.value, "work")]
             if not body_calls:
                 continue
             arg = unparse(body_calls[0].args[0])
@@ -145,7 +145,7 @@ def check(ctx):
             ctx.ob("SIB.extract-convert", lst[0] if lst else conv, "list: extractor descends into elements; converter converts each element", ok)
         elif kind == "dict":
             # a dict can occur (1) as a task argument, handled in the argument loop
-            dif = [n for n in ast.walk(task_if) if isinstance(n, ast.If) and unparse(n.test) == "isinstance(a, dict)"]
+            dif = [n for n in ast.walk(task_if) if isinstance(n, ast.If) and eqv(n.test, "isinstance(a, dict)")]
             ok = False
             detail = "no dict branch in the argument loop"
             if dif:
@@ -157,7 +157,7 @@ def check(ctx):
                 dcs = [d for d in ast.walk(body) if isinstance(d, ast.DictComp)]
                 vals_only = any(
                     len(d.generators) == 1
-                    and unparse(d.generators[0].iter) == "a.items()"
+                    and eqv(d.generators[0].iter, "a.items()")
                     and isinstance(d.generators[0].target, ast.Tuple)
                     and isinstance(d.key, ast.Name)
                     and d.key.id == unparse(d.generators[0].target.elts[0])
@@ -170,7 +170,7 @@ def check(ctx):
                     ctx.ob("SIB.extract-convert.dict-values-only", dif[0], "dict argument: values are converted, keys stay literal ({k: convert(v) for k, v in a.items()})", vals_only, "" if vals_only else "dict keys are converted as well: a label equal to a graph key becomes a reference (and a dependency the extractor never reports)")
             ctx.ob("SIB.extract-convert", dif[0] if dif else task_if, "dict argument: extractor descends into values; converter converts each value", ok, detail)
         elif kind in ("GraphNode", "TaskRef"):
-            ok = kind == "TaskRef" or any(isinstance(n, ast.If) and unparse(n.test) == "isinstance(task, GraphNode)" and any(isinstance(x, ast.Return) and unparse(x.value) == "task" for x in n.body) for n in conv.body)
+            ok = kind == "TaskRef" or any(isinstance(n, ast.If) and eqv(n.test, "isinstance(task, GraphNode)") and any(isinstance(x, ast.Return) and eqv(x.value, "task") for x in n.body) for n in conv.body)
             ctx.ob("SIB.extract-convert", conv, f"{kind}: passed through unchanged", ok, nontrivial=False)
         else:
             ctx.ob("SIB.extract-convert", kit, f"extractor kind `{kind}`", None, "unknown container kind in keys_in_tasks")
@@ -201,7 +201,7 @@ def check(ctx):
     okw = any(Pat("DataNode(k, t)").match(b["M_v"]) is not None and has_fact(inline_facts(clg, n), "isinstance(t, GraphNode)", False) is not None for n, b in find("t = M_v", clg, nested=False))
     ctx.ob("TYPED.convert-graph.wrap", clg, "non-node values are wrapped as DataNode(k, t)", okw and bool(st))
     okc = any(Pat("convert_legacy_task(k, arg, all_keys)").match(b["M_v"]) is not None for n, b in find("t = M_v", clg, nested=False))
-    loops = [l for l in walk_no_nested(clg) if isinstance(l, ast.For) and unparse(l.iter) == "dsk.items()" and unparse(l.target) == "(k, arg)"]
+    loops = [l for l in walk_no_nested(clg) if isinstance(l, ast.For) and eqv(l.iter, "dsk.items()") and eqv(l.target, "(k, arg)")]
     ctx.ob("TYPED.convert-graph.each-key", clg, "for k, arg in dsk.items(): t = convert_legacy_task(k, arg, all_keys)", okc and bool(loops))
     skip = [n for n in walk_no_nested(clg) if isinstance(n, ast.If) and "isinstance(t, Alias)" in unparse(n.test)]
     ok = bool(skip) and "t.target == k" in unparse(skip[0].test)
@@ -267,7 +267,7 @@ def check(ctx):
     if "GraphNode" in kinds_call:
         ok = any(isinstance(r, ast.Return) and Pat("a({k: values[k] for k in a.dependencies})").match(r.value) is not None for r in kinds_call["GraphNode"].body)
         ctx.ob("SIB.init-call.node-value", kinds_call["GraphNode"], "nested node evaluates on exactly its dependencies' values", ok)
-    els = [r for r in ast.walk(ev) if isinstance(r, ast.Return) and unparse(r.value) == "a"]
+    els = [r for r in ast.walk(ev) if isinstance(r, ast.Return) and eqv(r.value, "a")]
     ctx.ob("SIB.init-call.literal", ev, "anything else is a literal", bool(els))
     ok_args = bool(find("tuple(map(_eval, self.args))", call)) or bool(find("tuple(_eval(M_a) for M_a in self.args)", call))
     ok_kw = bool(find("{k: _eval(kw) for k, kw in self.kwargs.items()}", call))
@@ -294,10 +294,10 @@ def check(ctx):
     gn = model.klass(TS, "GraphNode")
     ann = [st.target.id for st in gn.node.body if isinstance(st, ast.AnnAssign) and isinstance(st.target, ast.Name)]
     slots_decl = gn.own.get("__slots__")
-    ok = "_dependencies" in ann and "key" in ann and slots_decl is not None and unparse(slots_decl) == "tuple(__annotations__)"
+    ok = "_dependencies" in ann and "key" in ann and slots_decl is not None and eqv(slots_decl, "tuple(__annotations__)")
     ctx.ob("TAB.pickle.dependencies-slot", gn.node, "`_dependencies` and `key` are slots of every GraphNode", ok)
     gas = gn.own_methods.get("get_all_slots")
-    ok = gas is not None and any(isinstance(l, ast.For) and unparse(l.iter) == "cls.mro()" for l in walk_no_nested(gas)) and (all(Pat("sorted(set(slots))").match(r.value) is not None for r in returns(gas)) and bool(returns(gas)))
+    ok = gas is not None and any(isinstance(l, ast.For) and eqv(l.iter, "cls.mro()") for l in walk_no_nested(gas)) and (all(Pat("sorted(set(slots))").match(r.value) is not None for r in returns(gas)) and bool(returns(gas)))
     ctx.ob("TAB.pickle.all-slots", gas or gn.node, "get_all_slots unions __slots__ over the MRO, deterministically ordered", ok)
     nsub = 0
     for ci in model.subclasses(gn, "dask/_task_spec"):
@@ -334,14 +334,14 @@ def check(ctx):
     ctx.ob("TAB.pickle.nested-constructor", nc.node, "NestedContainer: pop 'constructor' from a copy of kwargs; restore it after super().__setstate__", ok)
     # ---------------- every value of a legacy graph goes through convert_legacy_task with the full key set
     clg = ts.func("convert_legacy_graph") if "ts" in dir() else ctx.model.module("dask/_task_spec.py").func("convert_legacy_graph")
-    loops_ = [l for l in walk_no_nested(clg) if isinstance(l, ast.For) and unparse(l.iter) == "dsk.items()"]
+    loops_ = [l for l in walk_no_nested(clg) if isinstance(l, ast.For) and eqv(l.iter, "dsk.items()")]
     ok = len(loops_) == 1
     if ok:
         l_ = loops_[0]
         first = l_.body[0]
-        ok = unparse(first) == "t = convert_legacy_task(k, arg, all_keys)" and unparse(l_.target) == "(k, arg)"
+        ok = eqv(first, "t = convert_legacy_task(k, arg, all_keys)") and eqv(l_.target, "(k, arg)")
     ctx.ob("MPT.convert-all-values", clg, "convert_legacy_graph: the first thing done with every (k, arg) is convert_legacy_task(k, arg, all_keys) -- no value bypasses the conversion", ok, "" if ok else "some values are wrapped without conversion: a literal that equals a graph key (e.g. the number 0 when 0 is a key) is no longer a reference and the node reports no dependency")
-    ok = bool(find("all_keys = set(dsk)", clg)) and any(unparse(e) == "all_keys is None" and pol for a_ in [x for x, _ in find("all_keys = set(dsk)", clg)] for e, pol in cfg_of(clg).facts(a_))
+    ok = bool(find("all_keys = set(dsk)", clg)) and any(eqv(e, "all_keys is None") and pol for a_ in [x for x, _ in find("all_keys = set(dsk)", clg)] for e, pol in cfg_of(clg).facts(a_))
     ctx.ob("MPT.convert-all-values.default-keys", clg, "all_keys defaults to the graph's own keys only when not given", ok)
     cg = ctx.model.module("dask/core.py").func("get")
     cc = [c for c in calls(cg, "convert_legacy_graph")]
